@@ -28,6 +28,7 @@ C19-s17-accept-uni-not-woken|revert-S17-05d45b2.diff|C19|C19.uni_stream_not_surf
 C20-s18-table-shrunk-below-its-size|revert-S18-4008c51.diff|C20|C20.table_exceeds_capacity
 C20-s19-unreconstructible-required-insert-count-panics|revert-S19-a738dba.diff|C20|C20.panic
 C06-s20-field-section-with-more-lines-than-a-header-map-holds-panics|revert-S20-d4f64fd.diff|C06|C06.panic
+C07-s21-reset-request-polled-again-closes-connection|revert-S21-791ad44.diff|C07|C07.connection_closed code=H3_FRAME_ERROR
 '
 last=""
 echo "$LIST" | while IFS='|' read -r name patch check want; do
